@@ -73,7 +73,7 @@ CLAIMS = {
             "statistics keep the partition, one result is counted per regular entry; Replaced => the path names a new inode holding the handler's output; anything else => the single-link file "
             "keeps its inode number and inode (content, mode, owner, mtime) - for all handlers, results and single faults. Tied to the code by comparing the CLI summary with a snapshot diff grouped "
             "by inode over trees with dirty/clean/malformed/hard-linked/two-extension inodes x handler selections x {serial, -jN, --check}, and the serial run with the model walk.",
-            "Modelled, not verified: Rewritten (multi-link, in place) is covered by correspondence and oracle only; F15 (two handlers on one file) is a recorded finding.", "DESIGN.md section 5-C14"),
+            "Modelled, not verified: Rewritten (multi-link, in place) has a theorem for fault-free runs only; F15 (two handlers on one file) is a recorded finding.", "DESIGN.md section 5-C14"),
     "C18": ("Coq theorem over all byte strings about a model of PycParser::from_file + set_zero_mtime whose magic-number table, offsets and the PEP 552 guard are regenerated from pyc.rs: "
             "whenever the handler returns normally the header was recognised, the timestamp field (offset 4 for 8/12-byte headers, 8 for 16-byte ones) lies inside it, length is unchanged, "
             "no byte outside the field changes, hash-based files are never modified, 'modified' iff timestamp-based with a non-zero field, the field is 0 afterwards; idempotent; "
@@ -103,7 +103,7 @@ CLAIMS = {
             "Replaced for a single-link file, the path names a new regular inode holding the handler's output with the original 12-bit mode and ns mtime, owner as far as chown was "
             "permitted, temp name gone, all other names as before; plus the kernel rule showing the chown/chmod order matters. Tied to the code by strace'd CLI runs (operation order, "
             "class, final snapshot = model) over set-id/sticky modes, owners, mtimes, 1..3 links, stale temp; a snapshot oracle judges mode/owner/mtime/inode/link preservation.",
-            "Modelled, not verified: Linux semantics of rename/chown/chmod/O_EXCL as abstracted in Fs.v; the multi-link in-place rewrite and 'each inode once' are checked by correspondence and oracle only (no theorem yet).",
+            "Modelled, not verified: Linux semantics of rename/chown/chmod/O_EXCL as abstracted in Fs.v; the multi-link in-place rewrite has a theorem for fault-free runs (same inode, new content, mode/owner/links kept, mtime restored); under faults and 'each inode once' it is checked by correspondence and oracle.",
             "DESIGN.md section 5-C09"),
     "C10": ("Coq theorem: in check mode, for every handler result (errors and panics included), shape, profile and any single failing operation, the file system after the run and at every "
             "intermediate point IS the initial one and only non-mutating operations are issued. Tied to the code by strace'd --check runs (no mutating syscall; snapshot incl. directory "
